@@ -49,8 +49,11 @@ Theorem C08_clean_is_hygiene : forall p o, clean p o <-> (clean_by_facts p o /\ 
 Proof. exact clean_iff_facts. Qed.
 Print Assumptions C08_clean_is_hygiene.
 
-(* in every function of zap that holds a pooled buffer (regenerated event order): once freed the
-   buffer is never used, freed or returned again, and a buffer that is not freed is returned *)
+(* in every function of zap that holds a pooled buffer - or a CheckedEntry, pooled encoder, slice
+   encoder, error wrapper or stack from its Get to its Put - (regenerated event order): once freed /
+   put back the object is never used, freed or returned again (CheckedEntry.Write: the cores, the error
+   output and the CheckWriteHook, which is handed the entry itself, all come before putCheckedEntry),
+   and a buffer that is not freed is returned *)
 Theorem C08_ownership_facts : forall f, In f own_facts ->
   (forall pre post, of_events f = (pre ++ BFree :: post)%list ->
      ~ In BUse post /\ ~ In BFree post /\ ~ In BRet post) /\
@@ -86,6 +89,34 @@ Theorem C08_bare_check_silent : forall h adv cores ent fs,
 Proof. exact bare_check_silent. Qed.
 Print Assumptions C08_bare_check_silent.
 
+(* the last user of a pooled CheckedEntry is the entry's CheckWriteHook (Panic / Fatal / DPanic in
+   development, After / Should): after any history and under any adversary, whatever the hook logs
+   through cores of its own before it looks (those calls take CheckedEntries from the same pool), it
+   finds in the CheckedEntry it is handed exactly the entry that was logged - this call's message,
+   level, name, caller and stack - and that is the last thing the call makes observable *)
+Theorem C08_hook_sees_logged_entry : forall h adv lg ent cs fs hk,
+  l_hook lg = Some hk ->
+  exists pre, observe h adv (OLog lg ent cs fs) =
+                inl (OutEvents (pre ++ p_nested 0 (hk_nested hk) ++ [Hook (hk_id hk) (p_log_entry lg ent cs)])) /\
+              Forall (fun ev => (exists k b, ev = SinkWrite k b) \/ ev = ErrOut) pre.
+Proof. exact hook_sees_logged_entry. Qed.
+Print Assumptions C08_hook_sees_logged_entry.
+
+Theorem C08_bare_hook_sees_entry : forall h adv cores hk ent fs,
+  exists pre, observe h adv (OCheck cores (Some hk) ent fs) =
+                inl (OutEvents (pre ++ p_nested 0 (hk_nested hk) ++ [Hook (hk_id hk) ent])) /\
+              Forall (fun ev => exists k b, ev = SinkWrite k b) pre.
+Proof. exact bare_hook_sees_entry. Qed.
+Print Assumptions C08_bare_hook_sees_entry.
+
+(* ... and every line of the hook's own logging is the line of one of its own calls *)
+Theorem C08_hook_own_lines : forall l call ev, In ev (p_nested call l) ->
+  exists i cores nent nfs co c,
+    nth_error l i = Some (cores, nent, nfs) /\ nth_error cores co = Some c /\ co_fail c = false /\
+    ev = HookWrite (call + i) co (p_core_line c nent nfs).
+Proof. exact p_nested_lines. Qed.
+Print Assumptions C08_hook_own_lines.
+
 Theorem C08_history_independent : forall h1 h2 adv1 adv2 o, observe h1 adv1 o = observe h2 adv2 o.
 Proof. exact history_independent. Qed.
 Print Assumptions C08_history_independent.
@@ -117,7 +148,7 @@ Definition ex_ent : entry := {| en_lvl := [x69]; en_name := []; en_msg := [x68];
 Definition ex_json : core := {| co_enc := ex_enc; co_console := false; co_fail := false |}.
 Definition ex_cons : core := {| co_enc := ex_enc; co_console := true; co_fail := false |}.
 Definition ex_fs : list pf := [PNs [x6e]; PRefl [x72] (ROk [x31]); PErr [x65] [x78] [[x79]]].
-Definition ex_log : logger := {| l_cores := [ex_json; ex_cons]; l_hook := Some 7; l_errout := true; l_caller := true; l_stack := true |}.
+Definition ex_log : logger := {| l_cores := [ex_json; ex_cons]; l_hook := Some {| hk_id := 7; hk_nested := [] |}; l_errout := true; l_caller := true; l_stack := true |}.
 
 (* {"l":"i","m":"h","n":{"r":1,"e":"x","eCauses":[{"error":"y"}]}}\n after a history that recycles
    every pool, with the adversary always taking the most recently pooled object *)
@@ -159,7 +190,7 @@ Proof. vm_compute. discriminate. Qed.
 Example C08_dirty_checked_entry_is_harmless :
   snd (exec (op_prog (OLog ex_log ex_ent [5; 6] [])) [1]
             {| sh_pools := {| pl_json := []; pl_buf := []; pl_slice := [];
-                              pl_ce := [{| ce_ent := ex_ent; ce_errout := true; ce_dirty := true; ce_after := Some 9; ce_cores := [ex_cons; ex_cons] |}];
+                              pl_ce := [{| ce_ent := ex_ent; ce_errout := true; ce_dirty := true; ce_after := Some {| hk_id := 9; hk_nested := [] |}; ce_cores := [ex_cons; ex_cons] |}];
                               pl_errc := []; pl_errz := []; pl_stack := [] |}; sh_next := 0 |})
   = inl (op_spec (OLog ex_log ex_ent [5; 6] [])).
 Proof. vm_compute. reflexivity. Qed.
@@ -169,16 +200,30 @@ Definition ex_bad : core := {| co_enc := ex_enc; co_console := true; co_fail := 
 Example C08_stale_error_output_is_harmless :
   snd (exec (op_prog (OCheck [ex_json; ex_bad] None ex_ent [])) [1]
             {| sh_pools := {| pl_json := []; pl_buf := []; pl_slice := [];
-                              pl_ce := [{| ce_ent := ex_ent; ce_errout := true; ce_dirty := false; ce_after := Some 9; ce_cores := [ex_cons; ex_cons] |}];
+                              pl_ce := [{| ce_ent := ex_ent; ce_errout := true; ce_dirty := false; ce_after := Some {| hk_id := 9; hk_nested := [] |}; ce_cores := [ex_cons; ex_cons] |}];
                               pl_errc := []; pl_errz := []; pl_stack := [] |}; sh_next := 0 |})
   = inl (OutEvents [SinkWrite 0 (ascii [123; 34; 108; 34; 58; 34; 105; 34; 44; 34; 109; 34; 58; 34; 104; 34; 125; 10]%N)]).
 Proof. vm_compute. reflexivity. Qed.
 (*      and reset() is what does it: Write on the same entry as the pool held it reports the failure on
         the earlier Logger's error output and fires the earlier hook *)
 Example C08_unreset_checked_entry_is_observable :
-  snd (exec (run_m (ce_write {| ce_ent := ex_ent; ce_errout := true; ce_dirty := false; ce_after := Some 9; ce_cores := [ex_bad] |} []) OutEvents)
+  snd (exec (run_m (ce_write {| ce_ent := ex_ent; ce_errout := true; ce_dirty := false; ce_after := Some {| hk_id := 9; hk_nested := [] |}; ce_cores := [ex_bad] |} []) OutEvents)
             [] sh_init)
-  = inl (OutEvents [ErrOut; Hook 9]).
+  = inl (OutEvents [ErrOut; Hook 9 ex_ent]).
+Proof. vm_compute. reflexivity. Qed.
+(* (c'') a Panic whose hook logs twice through a tee of its own before it looks at its entry, after a
+        history, the adversary always handing out the most recently pooled objects (so the hook's
+        calls get the CheckedEntries of the history, never the one in use): the hook's lines are its
+        own and it sees the panic entry *)
+Definition ex_hook : hookd := {| hk_id := 3; hk_nested := [([ex_json; ex_bad], ex_ent, []); ([ex_cons], ex_ent, [])] |}.
+Definition ex_panic : entry := {| en_lvl := [x70]; en_name := [x6e]; en_msg := [x62; x6f; x6f; x6d]; en_stack := []; en_caller := None |}.
+Example C08_hook_that_logs_sees_its_entry :
+  observe [HOp (OLog ex_log ex_ent [5; 6] []); HOp (OCheck [ex_json] None ex_ent [])] (repeat 1 60)
+          (OLog {| l_cores := [ex_json]; l_hook := Some ex_hook; l_errout := true; l_caller := false; l_stack := false |} ex_panic [1; 2] [])
+  = inl (OutEvents [SinkWrite 0 (ascii [123; 34; 108; 34; 58; 34; 112; 34; 44; 34; 110; 34; 58; 34; 110; 34; 44; 34; 109; 34; 58; 34; 98; 111; 111; 109; 34; 125; 10]%N);
+                    HookWrite 0 0 (ascii [123; 34; 108; 34; 58; 34; 105; 34; 44; 34; 109; 34; 58; 34; 104; 34; 125; 10]%N);
+                    HookWrite 1 0 (ascii [105; 9; 104; 10]%N);
+                    Hook 3 ex_panic]).
 Proof. vm_compute. reflexivity. Qed.
 (* (d) a Stack whose storage were empty makes Capture's growth loop diverge *)
 Example C08_empty_storage_diverges :
